@@ -29,20 +29,20 @@ what the generator and the runtime produce on every run (table dump, trees).
 Status: **proved** = a ∀-theorem about the model driver on the real dumped table (tied to the real
 parser by the per-string correspondence `run tbl toks` vs `ts_parser_parse`: accept/reject, tree,
 production ids, dynamic precedence); **partial** = proved under a decidable hypothesis that the check
-evaluates per generated grammar (fraction = grammars where it holds, thorough tier, seed 1: 746
-dumped tables); **judged** = decided per explored string by a verified checker or a model, no ∀-theorem.
+evaluates per generated grammar (fraction = grammars where it holds, quick tier, seed 1: 202
+dumped tables; the thorough tier has ≈ 800 with the same proportions); **judged** = decided per explored string by a verified checker or a model, no ∀-theorem.
 
 | phrase of the property text | theorems | status |
 |---|---|---|
-| "for every grammar the generator accepts" | — the generator runs for real on random CFGs / operator tables / declared-conflict / zoo grammars; operator tables: accepted iff `OpTable.resolvable` | judged (37 rejected tables, all unresolvable) |
-| the runtime's table walk is well defined (no pop below the base, no undefined goto, a root at accept) | `driver_no_fault` | partial: `tableClosed` — 746/746 (failing is a violation) |
-| "reports no error on a string ⇒ the grammar derives it" | `driver_sound` (accepted tree is a tree over the productions the table spells), `parser_sound_per_grammar` (… ⇒ `DerivesTok g start toks`, ALL strings) | partial: `tableSafe ∧ relOK g tbl aux` — 551/746 (in `relScope`, 440, failing is a violation); outside: judged per string (`check_sound` on the real tree) |
-| "the grammar derives it ⇒ reports no error" | `table_complete_for_its_productions`, `grammar_covered_by_productions`, `parser_complete_per_grammar` (ALL strings of non-extra terminals; fuel existential) | partial: `coverOK ∧ completeOK` — 363/746 (for covered grammars without precedence and one action per cell, 171, failing is a violation); outside: judged per string (oracle up to L, generated sentences), except members lost to a statically resolved real LR(1) conflict (by design; counted: 37) |
-| "exactly when" (both halves together) | `parser_recognises_exactly_its_grammar` : accepts ↔ `DerivesTok` | partial: all four validations — 363/746 |
-| the membership oracle behind the per-string judgement never claims a non-member | `enum_sound`, `oracle_sound` | proved (its completeness at the fixpoint: not proved; converged on 710/710) |
-| "the tree is a derivation of the grammar" (fields, aliases, hidden/inlined rules, extras) | `check_sound`, `check_memo_sound` : `checkDerivationM g t = true → Derives g t`; `driver_yield` (leaves = tokens) | judged per error-free real tree (91135/91135 pass) with a proved checker; `check_complete` not proved |
+| "for every grammar the generator accepts" | — the generator runs for real on random CFGs / operator tables / declared-conflict / zoo grammars; operator tables: accepted iff `OpTable.resolvable` | judged (15 rejected tables, all unresolvable) |
+| the runtime's table walk is well defined (no pop below the base, no undefined goto, a root at accept) | `driver_no_fault` | partial: `tableClosed` — 202/202 (failing is a violation); the RAW table rows read by `rawLookup` (`small_table_lookup_first_group`) equal `ts_language_lookup` on every (state, symbol): 202/202 (failing is a violation) |
+| "reports no error on a string ⇒ the grammar derives it" | `driver_sound` (accepted tree is a tree over the productions the table spells), `parser_sound_per_grammar` (… ⇒ `DerivesTok g start toks`, ALL strings) | partial: `tableSafe ∧ relOK g tbl aux` (grammar read through `tokenView`, non-terminals renamed by `renameNT`: `parser_sound_renamed`) — 189/202 (in `relScope`, 175, failing is a violation); outside: judged per string (`check_memo_sound` on the real tree) |
+| "the grammar derives it ⇒ reports no error" | `table_complete_for_its_productions`, `grammar_covered_by_productions`, `parser_complete_per_grammar` (ALL strings of non-extra terminals; fuel existential) | partial: `coverOK ∧ completeOK` (`parser_complete_renamed`) — 70/202, i.e. 70 of the 99 random-CFG/zoo tables it is attempted on (for covered grammars without precedence and one action per cell, 18, failing is a violation); outside: judged per string (oracle up to L, generated sentences), except members lost to a statically resolved real LR(1) conflict (by design; counted) |
+| "exactly when" (both halves together) | `parser_recognises_exactly_its_grammar` : accepts ↔ `DerivesTok` | partial: all four validations (`…_up_to_names`) — 70/202 |
+| the membership oracle behind the per-string judgement never claims a non-member | `enum_sound`, `oracle_sound` | proved (its completeness at the fixpoint: not proved; converged on 152/152) |
+| "the tree is a derivation of the grammar" (fields, aliases, hidden/inlined rules, extras) | `check_sound`, `check_memo_sound` : `checkDerivationM g t = true → Derives g t`; `driver_yield` (leaves = tokens) | judged per error-free real tree (9625/9625 pass; thorough ≈ 95 000) with a proved checker; `check_complete` not proved |
 | "the unique one for conflict-free grammars" | — (`unique_eq` not proved); the model driver is deterministic and its tree equals the real internal tree | judged (correspondence on every accepted string) |
-| "for operator grammars the one selected by the declared precedence and associativity" | `pratt_yield`, `pratt_respects` (binary/prefix/postfix, integer/negative/default levels, rules sharing an operator token) | proved about the Pratt model; real tree = Pratt tree judged per string (1.76 M strings incl. all chains of two and three operators) |
+| "for operator grammars the one selected by the declared precedence and associativity" | `pratt_yield`, `pratt_respects` (binary/prefix/postfix, integer/negative/default levels, rules sharing an operator token) | proved about the Pratt model; real tree = Pratt tree judged per string (180 000 strings quick, ≈ 2 M thorough, incl. all chains of two and three operators; NAMED precedence levels, operators as alternatives of one rule) |
 | "declared conflicts: the tree is one of the grammar's derivations" | `check_sound`; `glr_yield` (every accepting run of a multi-action table yields the token string) | judged per string; the GLR model (`parseAll`) is tied by correspondence (version merging not modelled) |
 | "the one with the greater dynamic precedence is kept" | `glr_select_max`, `select_tree_prefers_dynprec`, `select_tree_prefers_lower_cost`, `dyn_sound` (every (string, total) of the dynamic-precedence oracle comes from a derivation) | proved about `selectBest` / the port of `ts_parser__select_tree`; real root's dynamic precedence = greatest total judged per string |
 
